@@ -236,7 +236,7 @@ fn nmt_specs() -> Vec<NmtSpec> {
     ]
 }
 
-//@unit props=C14 label=B tier=quick native=1 fn=mtrl::Material::from_existing bound="by execution: 8 hand-packed materials (texture paths with non-ASCII bytes followed by further paths; constants stored in listing order, in reverse order and sharing one run of values; legacy 16-row colour tables with implicit and with explicit 4x16 dimension bits, Dawntrail 32-row colour tables with a distinct exactly-representable half in every slot, with and without dye tables, 0..3 textures, 0..3 keys, constants of 1..4 floats, 0..2 samplers)"
+//@unit props=C14 label=B tier=quick native=1 fn=mtrl::Material::from_existing bound="by execution: dye-table-only materials for 6 Dawntrail dimension bytes incl. both ends 0x50 and 0x5F; 8 hand-packed materials (texture paths with non-ASCII bytes followed by further paths; constants stored in listing order, in reverse order and sharing one run of values; legacy 16-row colour tables with implicit and with explicit 4x16 dimension bits, Dawntrail 32-row colour tables with a distinct exactly-representable half in every slot, with and without dye tables, 0..3 textures, 0..3 keys, constants of 1..4 floats, 0..2 samplers)"
 //@desc the parsed material returns the shader package name, the texture paths in order, the keys, every constant with its own floats and count, the samplers, and every colour-table and dye-table row holds the values stored at its own position (row r, slot k)
 #[test]
 fn native_mtrl_parse() {
@@ -281,6 +281,29 @@ fn native_mtrl_parse() {
             (Some(ColorDyeTable::DawntrailColorDyeTable(t)), true, true) => { for (r, row) in t.rows.iter().enumerate() {
                 assert_eq!((row.template as u32, row.channel as u32, row.diffuse, row.sphere_map_mask), ((r as u32 * 67 + 5) & 0x7FF, r as u32 % 4, (r as u32 * 0x1A5 + 1) & 1 != 0, (r as u32 * 0x1A5 + 1) & 0x800 != 0), "dawntrail dye row {r}"); } }
             _ => panic!("dye table kind does not match the table flags"),
+        }
+        cases += 1;
+    }
+    // dye-table-only materials over the whole range of Dawntrail dimension bytes 0x50..=0x5F (both ends included): 32 four-byte rows each
+    for dims in [0x50u32, 0x51, 0x53, 0x5A, 0x5E, 0x5F] {
+        let strings = b"dye.shpk\0\0\0\0";
+        let mut o: Vec<u8> = vec![];
+        o.extend_from_slice(&0x0103_0000u32.to_le_bytes()); o.extend_from_slice(&0u16.to_le_bytes()); o.extend_from_slice(&128u16.to_le_bytes());
+        o.extend_from_slice(&(strings.len() as u16).to_le_bytes()); o.extend_from_slice(&0u16.to_le_bytes()); o.extend_from_slice(&[0, 0, 0, 4]);
+        o.extend_from_slice(strings);
+        o.extend_from_slice(&(0x8u32 | (dims << 4)).to_le_bytes());
+        let word = |r: u32| ((r % 4) << 27) | (((r * 61 + 9) & 0x7FF) << 16) | ((r * 0x2B3 + 5) & 0xFFF);
+        for r in 0..32u32 { o.extend_from_slice(&word(r).to_le_bytes()); }
+        o.extend_from_slice(&[0u8; 12]);
+        let m = Material::from_existing(&o).expect("a dye-table-only material parses");
+        assert_eq!(m.shader_package_name, "dye.shpk");
+        match &m.color_dye_table {
+            Some(ColorDyeTable::DawntrailColorDyeTable(t)) => {
+                assert_eq!(t.rows.len(), 32, "32 dye rows for dimension byte {dims:#x}");
+                for (r, row) in t.rows.iter().enumerate() { let w = word(r as u32);
+                    assert_eq!((row.template as u32, row.channel as u32, row.diffuse, row.sphere_map_mask), ((w >> 16) & 0x7FF, (w >> 27) & 3, w & 1 != 0, w & 0x800 != 0), "dye row {r} for dimension byte {dims:#x}"); }
+            }
+            _ => panic!("dimension byte {dims:#x} lies in the Dawntrail range 0x50..=0x5F: a Dawntrail dye table is expected"),
         }
         cases += 1;
     }
